@@ -17,7 +17,7 @@ package q
 //@ monitor Q.lock
 //@   havoc self.reqList.lmem, self.reqList.lcnt, list.Element.lrk, list.Element.Value
 //@   invariant #shape self.reqList != nil && lwf(self.reqList) && sleepers(self.cond) >= 0 && woken(self.cond) >= 0
-//@   invariant #sleeponlyifempty sleepers(self.cond) > 0 ==> self.reqList.lcnt == 0 && !self.closed
+//@   invariant #sleeponlyifempty (self.closed ==> sleepers(self.cond) == 0) && (sleepers(self.cond) > 0 ==> self.reqList.lcnt <= woken(self.cond))
 //
 //@ pure errsOK() bool = ErrClosed != nil && ErrReqQFull != nil && ErrSync != nil && ErrClosed != ErrReqQFull && ErrClosed != ErrSync && ErrReqQFull != ErrSync
 //@ pure same(l *list.List) bool = l.lcnt == cs(l.lcnt) && l.lmem == cs(l.lmem) && (forall e *list.Element :: { e.lrk } cs(l.lmem[e]) ==> e.lrk == cs(e.lrk)) && (forall e *list.Element :: { e.Value } cs(l.lmem[e]) ==> e.Value == cs(e.Value))
@@ -55,7 +55,7 @@ package q
 //@   ensures #nosyncerr result1 != ErrSync
 //@   modifies Q.closed, a.reqList.lmem, a.reqList.lcnt, list.Element.lrk, list.Element.Value
 //@   loop 1
-//@     invariant wheld(a.lock) && a.reqList != nil && lwf(a.reqList) && sleepers(a.cond) >= 0 && woken(a.cond) >= 0 && (sleepers(a.cond) > 0 ==> a.reqList.lcnt == 0 && !a.closed)
+//@     invariant wheld(a.lock) && a.reqList != nil && lwf(a.reqList) && sleepers(a.cond) >= 0 && woken(a.cond) >= 0 && (a.closed ==> sleepers(a.cond) == 0) && (sleepers(a.cond) > 0 ==> a.reqList.lcnt <= woken(a.cond) + 1)
 //@     invariant a.reqList.lcnt == cs(a.reqList.lcnt) && a.reqList.lmem == cs(a.reqList.lmem) && a.closed == cs(a.closed) && kept(a.reqList)
 //
 //@ func Q.Pop
